@@ -524,6 +524,8 @@ def loop_cases(ex: Exec, loop: ast.While) -> Dict[str, Any]:
 
     def restore() -> None:
         ex.env, ex.sub, ex.events = dict(saved_env), dict(saved_sub), saved_events
+        for nm in assigned:  # values computed inside the loop are unknown after it
+            ex.env[nm] = Op('loopvar', name=nm)
 
     try:
         if const_true and not counters:
